@@ -25,6 +25,12 @@ CHECKS["C07"] = dict(design="4 C07", technique="TLA+ spec (PostIter) exhaustivel
     note="Trusted: TLC; the harness's comparison of returned postings with the tables TLC emitted. Advance targets obey the interface contract; ReplaceActual only on iterators exposing an actual bitmap, before the first call.",
     text="TLC enumerates every postings set P and exclusion set E over N documents (4 quick / 5 thorough) and every Next/Advance sequence of length L (3 / 4), checks IterSound and NextOnlyComplete, and emits each maximal call sequence with the expected returns and the expected hit details (ZapData's PostingsOf). The harness executes every sequence on real iterators for built, mmap-opened and merged (single-hit) segments x chunk sizes {1,2,3,N} x detail-flag combinations x access variants (exclusion bitmap, empty bitmap, ReplaceActual, preallocated list/iterator reused from another term or field), comparing doc numbers, freq, norm, locations, Count, ActualBitmap and DocNum1Hit. Bounded-exhaustive, as the property's quantifier asks.")
 
+CHECKS["C03"] = dict(design="4 C03", technique="TLA+ spec (DvVisit: declarative + operational visit state, checked by TLC) with every visit sequence replayed; plus TLC validation of recorded random visit orders (TraceLife dvwalk)",
+    text="TLC explores DvVisit.tla: every sequence of L visits (3 quick / 4 thorough) over two segments x 4 documents with or without state reuse, for chunk sizes {1,2,3}, checking on every state that the operational visit-state model (current chunk, cached chunk, reset on segment change) returns the declarative answer (DvAnyOrder). Every sequence is replayed on real segments for doc-value chunk sizes {1,2,3,1024} and every provenance pair {mem, mmap, merged}. In addition the lifecycle traces carry random-order visits with one reused state across live segments (up to 2200 documents, default chunk 1024) and complete ascending visits, all validated by TLC against DvOf; VisitableDocValueFields is compared with the batch's doc-value fields.")
+CHECKS["C08"] = dict(design="4 C08", technique="TLA+ spec (DictIter: declarative + operational scratch-list model) exhaustively explored by TLC; every query replayed on real dictionaries",
+    note="Trusted: TLC; trie DFA construction in the harness; vellum's regexp/levenshtein automata only as alternative realisations of an acceptance set whose denotation is evaluated by running them.",
+    text="TLC enumerates every term set (<=3 of 5 quick / <=4 of 6 thorough catalogue terms incl. empty, prefix pairs, NUL and non-ASCII) x every acceptance subset x every well-formed key range over 10 bounds, checks EnumExact (operational counts with the reused scratch postings list equal the true counts for every mixture of single-hit and general entries; the original, unrepaired design is refuted by the same invariant on every run) and emits the expected entries. Each query is executed on real dictionaries of built, re-opened, merged and twice-merged segments with trie DFAs, decoy-accepting DFAs, nil and vellum regexp/Levenshtein automata of equal denotation; Contains and Cardinality are compared per dictionary.")
+
 NA = {}
 for i in range(1, 21):
     pid = "C%02d" % i
